@@ -80,12 +80,27 @@ Proof. exact reach_remove. Qed.
 Print Assumptions C14_remove.
 
 (** ------------------------------------------------------------------ 3. registered pairs only *)
-(** pause / resume / setFeeOn / setFeeOff / setLocalRoles / issueLpToken succeed only on a
-    registered pair ([mgmt_target]: the pair address argument; pausing the router itself excluded) *)
+(** pause / resume / setFeeOn / setFeeOff / setLocalRoles / issueLpToken / setSwapEnabledByUser succeed
+    only on a registered pair ([mgmt_target]: the pair address argument; pausing the router itself excluded) *)
 Theorem C14_registered_only_management : forall w op w' o addr,
   rstep w op = Ok (w', o) -> mgmt_target op = Some addr -> Registered w addr.
 Proof. exact registered_only. Qed.
 Print Assumptions C14_registered_only_management.
+
+(** setSwapEnabledByUser (the one way a non-owner configures and resumes a pair): only on a registered
+    pair in ActiveNoSwaps state whose LP token the locked position wraps, only by that pair's initial
+    liquidity adder; its whole effect is the pair's own setFeePercents + resume *)
+Theorem C14_enable_swap_by_user : forall w c addr ltok orig unlock amt w' o,
+  ep_enable_swap w c addr ltok orig unlock amt = Ok (w', o) ->
+  exists pe p1 p2 o1 e1 o2 e2,
+    r_active (w_r w) = true /\ registered w addr = Ok pe /\
+    p_state (pe_p pe) = ST_PartialActive /\ pe_lp pe = true /\ orig = addr /\
+    p_adder (pe_p pe) = Some c /\
+    step (pe_p pe) (SetFee OWNER ROUTER_USER_DEFINED_TOTAL_FEE_PERCENT ROUTER_DEFAULT_SPECIAL_FEE_PERCENT) = Ok (p1, o1, e1) /\
+    step p1 (SetState OWNER ST_Active) = Ok (p2, o2, e2) /\
+    w' = set_pairs w (upd_pair (w_pairs w) addr (set_pp pe p2)) /\ o = [].
+Proof. exact enable_swap_spec. Qed.
+Print Assumptions C14_enable_swap_by_user.
 
 (** every hop of a successful multiPairSwap goes through a registered pair *)
 Theorem C14_registered_only_hops : forall w c tin amt hops w' ps,
@@ -251,4 +266,21 @@ Example C14_nonvacuous :
       [CreatePair OWNER 2 1 0 (Some (300, 50)) 13; Pause OWNER 12; RSetFeeOn OWNER 12 1 1; SetLocalRoles 1 12;
        Pause OWNER 10; RSetFeeOn OWNER 10 1 1; SetLocalRoles 1 10; RemovePair OWNER 2 1]
     = [false; false; false; false; true; true; true; true].
+Proof. vm_compute. repeat split. Qed.
+
+(** a user-created pair opened by its initial liquidity adder through setSwapEnabledByUser; the same
+    call is refused once the owner has removed the pair from the registry *)
+Definition c14_example_ops2 : list rop :=
+  [SetCreation OWNER true; AddCommon OWNER 2; ConfigEnable OWNER 2 8 1000 10;
+   CreatePair 1 3 2 1 None 10; SetLp OWNER 10; Direct 10 (AddInitial 1 500000 700000)].
+Example C14_nonvacuous_enable :
+  let w := rrun (init_world [(1, 3, 1000000000); (1, 2, 1000000000)] 1) c14_example_ops2 in
+  (match rstep w (EnableSwap 1 10 8 10 11 250000) with
+   | Ok (w', _) => option_map (fun pe => (p_state (pe_p pe), p_fee (pe_p pe), p_sfee (pe_p pe))) (pair_at (w_pairs w') 10)
+                   = Some (ST_Active, ROUTER_USER_DEFINED_TOTAL_FEE_PERCENT, ROUTER_DEFAULT_SPECIAL_FEE_PERCENT)
+   | Err _ => False
+   end) /\
+  is_ok (rstep w (EnableSwap 2 10 8 10 11 250000)) = false /\
+  is_ok (rstep w (EnableSwap 1 10 8 10 10 250000)) = false /\
+  is_ok (rstep (rstep_total w (RemovePair OWNER 2 3)) (EnableSwap 1 10 8 10 11 250000)) = false.
 Proof. vm_compute. repeat split. Qed.
